@@ -1,5 +1,5 @@
 """C07 - track record and rewards are a faithful, replayable account (engine EP)."""
-from vf import epl
+from vf import ep, epl
 
 PROP = "C07"
 LEVEL = "exploration"
@@ -108,7 +108,7 @@ def xy_reward(ctx):
                        max_long=1.0, max_short=-1.0)
     scale = float(np.log(Y.loc[:dates[kend]]).diff().std().mean())
     env.reset()
-    done = bool(env._done)
+    done = ep.reset_ended_episode(env)
     k = 0
     bound = 0
     while not done and k < n + 2:
